@@ -131,6 +131,7 @@ type vXSWorld struct {
 	nextNonce map[cciptypes.ChainSelector]*[3]uint64
 	block     uint64
 	t0        time.Time
+	plain     bool // probes: every report has three ready, affordable, out-of-order messages
 	failExec  bool // the executed-range query fails for every range of a chain but the last (all oracles)
 	tab       *vXSTab
 	senders   *vIntern
@@ -188,6 +189,9 @@ func (w *vXSWorld) commit(c cciptypes.ChainSelector, hidden bool) {
 	}
 	lo := w.next[c]
 	n := uint64(r.Range(1, 4))
+	if w.plain {
+		n = 3
+	}
 	hi := lo + n - 1
 	w.next[c] = hi + 1
 	var leaves [][32]byte
@@ -199,7 +203,7 @@ func (w *vXSWorld) commit(c cciptypes.ChainSelector, hidden bool) {
 			Sender: append([]byte{}, w.sender[k]...), Data: make([]byte, vPick(r, []int{0, 1, 5, 20})),
 			FeeTokenAmount: cciptypes.NewBigIntFromInt64(1), FeeValueJuels: cciptypes.NewBigIntFromInt64(1),
 		}
-		if !hidden && !r.Chance(1, 3) {
+		if !hidden && !r.Chance(1, 3) && !w.plain {
 			m.Header.Nonce = w.nextNonce[c][k]
 			w.nextNonce[c][k]++
 			if r.Chance(1, 20) {
@@ -212,8 +216,11 @@ func (w *vXSWorld) commit(c cciptypes.ChainSelector, hidden bool) {
 		for q := vPick(r, []int{0, 0, 1, 2}); q > 0; q-- {
 			td = append(td, exectypes.TokenData{Ready: !r.Chance(1, 8), Data: []byte{byte(1 + r.Intn(5)), byte(q)}, Supported: true})
 		}
+		if w.plain {
+			td = []exectypes.TokenData{}
+		}
 		w.toks[key] = td
-		if r.Chance(1, 12) {
+		if r.Chance(1, 12) && !w.plain {
 			w.costly[m.Header.MessageID] = true
 		}
 		w.gas[m.Header.MessageID] = uint64(vPick(r, []int{0, 100, 5000}))
@@ -777,6 +784,7 @@ func (d *vXSDon) round(ctx context.Context, w *vXSWorld, k int, dev vXSDev, nkey
 	for _, c := range vXSChains(fchain) {
 		fc = append(fc, cPair(cN(uint64(c)), cZ(int64(fchain[c]))))
 	}
+	raws := make([][]byte, len(d.nodes))
 	for i, n := range d.nodes {
 		raw, err := n.Observation(ctx, outctx, nil)
 		if err != nil {
@@ -784,14 +792,25 @@ func (d *vXSDon) round(ctx context.Context, w *vXSWorld, k int, dev vXSDev, nkey
 			obsErrs = append(obsErrs, fmt.Sprintf("oracle %d: %v", i, err))
 			continue
 		}
+		raws[i] = raw
+	}
+	for i := range d.nodes {
+		raw := raws[i]
+		if raw == nil {
+			continue
+		}
 		if d.byz[i] && k >= 0 {
-			hon, err := exectypes.DecodeObservation(raw)
-			if err != nil {
-				return vXSRound{fail: "honest observation does not decode"}
-			}
-			raw, err = w.deviate(k, dev.shape[k], dev.seed+uint64(k), hon).Encode()
-			if err != nil {
-				return vXSRound{fail: "deviating observation does not encode"}
+			if dev.shape[k] == "echo-lag" && d.lag >= 0 && raws[d.lag] != nil {
+				raw = raws[d.lag] // seconds the lagging reader: what it sends is an honest, but stale, observation
+			} else {
+				hon, err := exectypes.DecodeObservation(raw)
+				if err != nil {
+					return vXSRound{fail: "honest observation does not decode"}
+				}
+				raw, err = w.deviate(k, dev.shape[k], dev.seed+uint64(k), hon).Encode()
+				if err != nil {
+					return vXSRound{fail: "deviating observation does not encode"}
+				}
 			}
 		}
 		ao := types.AttributedObservation{Observation: raw, Observer: d.ids[i]}
@@ -863,7 +882,7 @@ func (d *vXSDon) round(ctx context.Context, w *vXSWorld, k int, dev vXSDev, nkey
 }
 
 // ground truth of a cycle: the eligible pending messages of the destination's current content, in builder order
-func (w *vXSWorld) expected() [][2]uint64 {
+func (w *vXSWorld) expected(keep func(vXSRep) bool) [][2]uint64 {
 	type rk struct {
 		c  cciptypes.ChainSelector
 		lo uint64
@@ -878,7 +897,7 @@ func (w *vXSWorld) expected() [][2]uint64 {
 	exp := map[string]uint64{}
 	var out [][2]uint64
 	for _, p := range reps {
-		if p.hidden {
+		if p.hidden || !keep(p) {
 			continue
 		}
 		for s := p.lo; s <= p.hi; s++ {
@@ -926,7 +945,8 @@ func TestVerif_ExecSys(t *testing.T) {
 	for h := 0; emitted < nCases; h++ {
 		hr := vNewRand(r.U64())
 		poison := probe == "poison" || probe == "poison1"
-		big7 := hr.Chance(1, 6) || poison
+		split := probe == "split"
+		big7 := (hr.Chance(1, 6) || poison) && !split
 		n, F := 4, 1
 		if big7 {
 			n, F = 7, 2
@@ -935,12 +955,16 @@ func TestVerif_ExecSys(t *testing.T) {
 		if poison {
 			nch = 2
 		}
+		if split {
+			nch = 1
+		}
 		w := &vXSWorld{r: hr, msgs: map[vXSKey]cciptypes.Message{}, toks: map[vXSKey][]exectypes.TokenData{},
 			costly: map[cciptypes.Bytes32]bool{}, gas: map[cciptypes.Bytes32]uint64{},
 			cur:  &vXSView{executed: map[vXSKey]bool{}, nonces: map[cciptypes.ChainSelector]map[string]uint64{}},
 			next: map[cciptypes.ChainSelector]uint64{}, nextNonce: map[cciptypes.ChainSelector]*[3]uint64{},
 			t0:  time.Now().UTC().Add(-2 * time.Hour).Truncate(time.Second),
 			tab: &vXSTab{in: vNewIntern(), rows: map[[2]uint64]bool{}}, senders: vNewIntern(), datas: vNewIntern()}
+		w.plain = split
 		zeroID := w.tab.id(hashutil.NewKeccak().ZeroHash())
 		for k := range w.sender {
 			b := make([]byte, 20)
@@ -972,6 +996,13 @@ func TestVerif_ExecSys(t *testing.T) {
 		fOf := map[cciptypes.ChainSelector]int{vXSDest: F}
 		for _, c := range w.chains {
 			fOf[c] = F
+		}
+		if big7 && !poison {
+			// f(source) and f(dest) drawn independently: commit reports, nonces and costly flags go by the destination's f
+			fOf[vXSDest] = hr.Range(1, 2)
+			for _, c := range w.chains {
+				fOf[c] = hr.Range(1, 2)
+			}
 		}
 		noRead2 := map[int]bool{}
 		if hr.Chance(1, 5) && nch == 2 {
@@ -1025,15 +1056,21 @@ func TestVerif_ExecSys(t *testing.T) {
 		for k := hr.Range(1, 3); k > 0; k-- {
 			w.commit(pickChain(), false)
 		}
-		if hr.Chance(1, 2) && !poison {
+		if hr.Chance(1, 2) && !poison && !split {
 			w.commit(vPick(hr, w.chains), true)
 		}
 		cycles := hr.Range(2, 4)
 		for cy := 0; cy < cycles && emitted < nCases; cy++ {
 			// ---- who deviates in this cycle ----
-			cls := vPick(hr, []string{"honest", "byz1", "byz1", "byz1", "collude", "collude", "lag", "lag+byz1"})
+			cls := vPick(hr, []string{"honest", "byz1", "byz1", "byz1", "collude", "collude", "lag", "lag+byz1", "lag+echo"})
+			if split {
+				cls = "honest" // the probe: an honest cycle whose report lands partly, then lag+echo
+				if cy > 0 {
+					cls = "lag+echo"
+				}
+			}
 			w.failExec = false
-			if cy > 0 && hr.Chance(1, 10) {
+			if cy > 0 && hr.Chance(1, 10) && !split {
 				cls = "readerr" // the destination reader fails for part of the executed-range queries, on every oracle
 				w.failExec = true
 			}
@@ -1048,10 +1085,13 @@ func TestVerif_ExecSys(t *testing.T) {
 			}
 			nb := 0
 			switch cls {
-			case "byz1", "lag+byz1":
+			case "byz1", "lag+byz1", "lag+echo":
 				nb = 1
 			case "collude":
 				nb = F + 1
+				if big7 && hr.Bool() {
+					nb = 2 // between f+1 of one chain and f+1 of another when the f differ
+				}
 			}
 			if poison {
 				nb = 2 // two faulty oracles of seven: within F = 2
@@ -1059,7 +1099,7 @@ func TestVerif_ExecSys(t *testing.T) {
 			for k := 0; k < nb; k++ {
 				d.byz[perm[k]] = true
 			}
-			if cls == "lag" || cls == "lag+byz1" {
+			if cls == "lag" || cls == "lag+byz1" || cls == "lag+echo" {
 				d.lag = perm[nb]
 			}
 			dev := vXSDev{seed: hr.U64()}
@@ -1069,17 +1109,54 @@ func TestVerif_ExecSys(t *testing.T) {
 					dev.shape[k] = "none"
 				}
 			}
-			live := cls == "honest" || cls == "byz1" || cls == "lag" || cls == "readerr"
+			if cls == "lag+echo" {
+				// the faulty oracle seconds the lagging reader in the GetCommitReports round and is honest afterwards
+				dev.shape = [3]string{"echo-lag", "none", "none"}
+			}
+			live := cls == "honest" || cls == "byz1" || cls == "lag" || cls == "readerr" || cls == "lag+echo"
 			if poison {
 				dev.shape = [3]string{"poison", "none", "none"}
 				live = true // two faulty oracles of seven, F = 2, f(1) = f(dest) = 2, neither reads chain 2
 			}
 			if big7 && cls == "lag+byz1" {
-				live = true // two deviating oracles of seven with f = 2
+				live = true // two deviating oracles of seven: within f only where every f is 2
+				for _, f := range fOf {
+					if f < 2 {
+						live = false
+					}
+				}
 			}
 			// a refused observation of a deviating oracle is a dropped one; a lagging reader that misses a report
 			// entirely still leaves f+1 honest reporters
-			exp := w.expected()
+			exp := w.expected(func(vXSRep) bool { return true })
+			if cls == "lag+echo" && w.stale != nil && n == 4 {
+				// two of four oracles (f = 1) report the stale versions: a report whose stale and current version differ is agreed
+				// in both versions and, being ambiguous, not pending in this cycle (repair of F76); the other reports must not be
+				// blocked by it ("items lacking support are ignored without blocking the others")
+				same := func(p vXSRep) bool {
+					found := false
+					for _, q := range w.stale.reps {
+						if q.chain == p.chain && q.lo == p.lo && q.hi == p.hi {
+							found = true
+						}
+					}
+					if !found {
+						return true // unknown to the stale view: reported in one version, by the two up-to-date oracles (f + 1)
+					}
+					for s := p.lo; s <= p.hi; s++ {
+						if w.stale.executed[vXSKey{p.chain, s}] != w.cur.executed[vXSKey{p.chain, s}] {
+							return false
+						}
+					}
+					return true
+				}
+				exp = w.expected(same)
+			} else if cls == "lag+echo" {
+				live = big7 // seven oracles: two stale reporters stay below f_dest + 1 only when f_dest = 2
+				if fOf[vXSDest] < 2 {
+					live = false
+				}
+			}
 			if cls == "readerr" {
 				exp = nil // an unreadable chain: nothing is promised, but nothing executed may be reported either
 			}
@@ -1148,6 +1225,12 @@ func TestVerif_ExecSys(t *testing.T) {
 			var exeS []string
 			var exeKeys []vXSKey
 			for key := range executedAtStart {
+				if cls == "lag+echo" {
+					// f+1 oracles report the stale view: a report that is fully executed by now is agreed in its stale version
+					// alone, so "nothing executed is reported" is not promised here - only that the ambiguous reports do not
+					// block the others
+					break
+				}
 				exeKeys = append(exeKeys, key)
 			}
 			sort.Slice(exeKeys, func(i, j int) bool {
@@ -1180,13 +1263,20 @@ func TestVerif_ExecSys(t *testing.T) {
 			w.stale = w.cur.clone()
 			if reached {
 				land := hr.Intn(4) // 0,1: everything lands; 2: partly; 3: never
+				if split {
+					land = 2
+				}
 				for _, cr := range last.Report.ChainReports {
 					for _, m := range cr.Messages {
 						key := vXSKey{cr.SourceChainSelector, uint64(m.Header.SequenceNumber)}
 						if _, real := w.msgs[key]; !real {
 							continue
 						}
-						if land <= 1 || (land == 2 && hr.Bool()) {
+						lands := land <= 1 || (land == 2 && hr.Bool())
+						if split { // the first message of every chain report lands, the others do not
+							lands = m.Header.SequenceNumber == cr.Messages[0].Header.SequenceNumber
+						}
+						if lands {
 							w.cur.executed[key] = true
 							if m.Header.Nonce != 0 {
 								sd := typeconv.AddressBytesToString(m.Sender[:], uint64(vXSDest))
@@ -1198,7 +1288,11 @@ func TestVerif_ExecSys(t *testing.T) {
 					}
 				}
 			}
-			for k := hr.Intn(3); k > 0; k-- {
+			newCommits := hr.Intn(3)
+			if split {
+				newCommits = 1 // a report the stale view does not know: it must not be blocked by the ambiguous ones
+			}
+			for k := newCommits; k > 0; k-- {
 				w.commit(pickChain(), false)
 			}
 		}
